@@ -320,6 +320,9 @@ func propC02(r *Run) {
 				if d := den(f.Loc); lawApplies(f.Loc, d) {
 					wantF["h|"+featKey(f)+denStr(hostImage(f.Loc, d))]++
 					r.count(opn + "/host feature law evaluated")
+					if hasAmbiguous(f.Loc) {
+						r.count(opn + "/host feature law evaluated on a feature with an ambiguous span")
+					}
 				}
 			}
 			for _, f := range guest.Features() {
@@ -613,6 +616,9 @@ func propC03(r *Run) {
 				if d := den(f.Loc); lawApplies(f.Loc, d) {
 					if w := mapDen(d, delMap(i, k)); len(w) > 0 {
 						wantF[featKey(f)+denStr(w)]++
+						if hasAmbiguous(f.Loc) {
+							r.count(opn + "/law evaluated on a feature with an ambiguous span")
+						}
 					}
 				}
 			}
@@ -678,17 +684,42 @@ func propC03(r *Run) {
 		// the surviving features are those with at least one residue (or site) overlapping; compare multisets of re-mapped denotations for features that keep a residue
 		wantD := map[string]int{}
 		wrap := bb < aa
+		// K3A: under a wrap-around window (Rotate by -start, then Slice(0, length)) an ambiguous span
+		// ACROSS THE WINDOW START (s < start < e) comes back inverted; the wrap-around theorems
+		// (slice_wrap_*_partial) exclude it through `normOk`, the property does not.  Such a feature
+		// is skipped by the denotation law (counted) and what the real code returns for it is
+		// computed here so that a coordinate failure on exactly that result is attributed to K3A.
+		k3a := map[string]int{}
 		for _, f := range s.Features() {
 			d0 := den(f.Loc)
 			d := mapDen(d0, winMap)
+			if hasAmbiguous(f.Loc) {
+				r.count("seq.slice/feature-with-ambiguous-span")
+			}
 			if wrap {
+				if ambCrossesOrigin(f.Loc, LL-aa, LL) {
+					r.count("seq.slice/wrap/skipped: ambiguous span across the window start (normOk; K3A)")
+					rot := f.Loc.Expand(0, LL-aa).Normalize(LL)
+					n := LL - aa + bb
+					k3a[featKey(f)+encLoc(rot.Expand(n, n-LL).Expand(0, 0))]++
+					if f.Key == "source" {
+						k3a[featKey(f)+"|source"]++
+					}
+					continue
+				}
 				// the window wraps around the origin: Slice rotates first; full-length and
 				// K2-shaped features have their own clauses under C04
 				if len(d) > 0 && lawApplies(f.Loc, d0) && len(d0) < LL {
 					wantD[featKey(f)+denStr(d)]++
+					if hasAmbiguous(f.Loc) {
+						r.count("seq.slice/wrap/law evaluated on a feature with an ambiguous span")
+					}
 				}
 			} else if len(d) > 0 && nodup(d0) {
 				wantD[featKey(f)+denStr(d)]++
+				if hasAmbiguous(f.Loc) {
+					r.count("seq.slice/forward/law evaluated on a feature with an ambiguous span")
+				}
 			}
 		}
 		for _, f := range res.Features() {
@@ -697,7 +728,15 @@ func propC03(r *Run) {
 				wantD[featKey(f)+denStr(d)]--
 			}
 			if !coordsWithin(f.Loc, len(want)) {
-				r.fail(Failure{Oracle: "slice: coordinates stay inside the window", Op: line, Got: encLoc(f.Loc)})
+				fl := Failure{Oracle: "slice: coordinates stay inside the window", Op: line, Got: encLoc(f.Loc)}
+				if k := featKey(f) + encLoc(f.Loc); k3a[k] > 0 {
+					k3a[k]--
+					fl.Finding = "K3A"
+				} else if k := featKey(f) + "|source"; k3a[k] > 0 && hasAmbiguous(f.Loc) {
+					k3a[k]--
+					fl.Finding = "K3A"
+				}
+				r.fail(fl)
 			}
 		}
 		// the spelling of the window does not matter: "negative indices counting from the end"
@@ -933,9 +972,9 @@ func propC04(r *Run) {
 		if !okBytes {
 			r.fail(Failure{Oracle: "rotate: residue k moves to (k+n) mod L", Op: line, Got: encBytes(ra.Bytes())})
 		}
-		c04Feats(r, line, s, ra, a, LL)
+		c04Feats(r, line, s, ra, []int{a}, LL)
 		rab := gts.Rotate(copySeq(ra), b)
-		c04Feats(r, fmt.Sprintf("seq.rotate %s %d ; then %d", encSeq(s), a, b), s, rab, a+b, LL)
+		c04Feats(r, fmt.Sprintf("seq.rotate %s %d ; then %d", encSeq(s), a, b), s, rab, []int{a, b}, LL)
 		rsum := gts.Rotate(copySeq(s), a+b)
 		if string(rab.Bytes()) != string(rsum.Bytes()) {
 			r.fail(Failure{Oracle: "rotate: additive on residues", Op: line + fmt.Sprintf(" then %d", b), Got: encBytes(rab.Bytes()), Want: encBytes(rsum.Bytes())})
@@ -1199,6 +1238,9 @@ func propC05(r *Run) {
 				}
 				if gts.CheckStrand(f.Loc) != gts.StrandBoth && !hasNestedCompl(f.Loc) {
 					want[featKey(f)+denStr(w)]++
+					if hasAmbiguous(f.Loc) {
+						r.count("seq.reverse/law evaluated on a feature with an ambiguous span")
+					}
 				}
 			}
 		}
@@ -1451,6 +1493,9 @@ func propC10(r *Run) {
 				if d := den(f.Loc); !lawApplies(f.Loc, d) {
 					continue
 				}
+				if hasAmbiguous(f.Loc) {
+					r.count("seq." + first + ";delete/law evaluated on a feature with an ambiguous span")
+				}
 				k := mk(f)
 				if have[k] == 0 {
 					r.fail(Failure{Oracle: first + ";delete gives every host feature a location denoting the same residues with the same partial markers", Op: full,
@@ -1591,12 +1636,45 @@ func cutGuards(s gts.Sequence, pts []int) string {
 }
 
 // c04Feats: every feature of the rotated record denotes its residues at (x+n) mod L, all
-// coordinates lie in [0,L]; features with a full-length part, an ambiguous leaf, duplicate
-// residues or a K2 shape are skipped (they have their own clauses at location level).
-func c04Feats(r *Run, line string, before, after gts.Sequence, n, L int) {
+// coordinates lie in [0,L]; features with a full-length part, duplicate residues or a K2 shape are
+// skipped (they have their own clauses at location level).  A feature with an ambiguous leaf is
+// CHECKED like every other one, except when one of its ambiguous spans lies across the new origin of
+// one of the rotation steps (`steps`: the rotations applied one after the other) — the carve-out of
+// the property ("ambiguous spans only when they do not cross the new origin"), the ambiguous clause
+// of `normOk` in rotate_feature_partial / rotate_table_partial: those are counted and what the real
+// code makes of them (Expand(0, m).Normalize(L) step by step) is exempted from the coordinate clause.
+func c04Feats(r *Run, line string, before, after gts.Sequence, steps []int, L int) {
+	n := 0
+	for _, st := range steps {
+		n += st
+	}
 	m := ((n % L) + L) % L
+	carved := map[string]int{}
+	skip := make([]bool, len(before.Features()))
+	for k, f := range before.Features() {
+		if !hasAmbiguous(f.Loc) {
+			continue
+		}
+		r.count("seq.rotate/feature-with-ambiguous-span")
+		loc := f.Loc
+		for _, st := range steps {
+			mj := ((st % L) + L) % L
+			if ambCrossesOrigin(loc, mj, L) {
+				skip[k] = true
+			}
+			loc = loc.Expand(0, mj).Normalize(L)
+		}
+		if skip[k] {
+			r.count("seq.rotate/skipped: ambiguous span across the new origin (property carve-out, normOk)")
+			carved[featKey(f)+encLoc(loc)]++
+		}
+	}
 	have := map[string]int{}
 	for _, f := range after.Features() {
+		if k := featKey(f) + encLoc(f.Loc); carved[k] > 0 {
+			carved[k]--
+			continue
+		}
 		if !coordsWithin(f.Loc, L) {
 			r.fail(Failure{Oracle: "rotate: all coordinates lie in [0,L]", Op: line, Got: encLoc(f.Loc)})
 			return
@@ -1616,10 +1694,13 @@ func c04Feats(r *Run, line string, before, after gts.Sequence, n, L int) {
 			have[featKey(f)+"|whole"]++
 		}
 	}
-	for _, f := range before.Features() {
+	for k, f := range before.Features() {
 		d := den(f.Loc)
-		if len(d) == 0 || !nodup(d) || hasAmbiguous(f.Loc) || len(d) > L || touchesK2(f.Loc) {
+		if skip[k] || len(d) == 0 || !nodup(d) || len(d) > L || touchesK2(f.Loc) {
 			continue
+		}
+		if hasAmbiguous(f.Loc) {
+			r.count("seq.rotate/law evaluated on a feature with an ambiguous span")
 		}
 		k1 := featKey(f) + denStr(mapDen(d, rotMap(m, L)))
 		if have[k1] > 0 {
@@ -1689,8 +1770,37 @@ func containsKind(l gts.Location) bool {
 }
 
 // lawApplies: the per-feature denotation law is checked at sequence level for features with a
-// duplicate-free, non-empty denotation, no ambiguous leaf and no shape on which known finding
-// K2 can fire (those have their own clauses at location level).
+// duplicate-free, non-empty denotation and no shape on which known finding K2 can fire (those have
+// their own clauses at location level).  Ambiguous (`n.m`) leaves ARE covered (audit S3 tail): the
+// denotation of an ambiguous span is its positions [start, end), and the laws of C02 / C03 (delete,
+// erase, forward slice) / C05 / C10 carry no guard on them (theorems shift_den, expand_del_den,
+// reverse_den …: every location kind); only the rotation laws (C04, the wrap-around window of C03,
+// C15 rotate) carve out a span ACROSS THE NEW ORIGIN — `ambCrossesOrigin`, the ambiguous clause of
+// the theorems' guard `normOk` (Gts/Lemmas/Normalize.lean).
 func lawApplies(l gts.Location, d []pos) bool {
-	return len(d) > 0 && nodup(d) && !hasAmbiguous(l) && !touchesK2(l)
+	return len(d) > 0 && nodup(d) && !touchesK2(l)
+}
+
+// ambCrossesOrigin: some ambiguous leaf [s, e) of l lies across the new origin of a rotation by m
+// (0 <= m < L), i.e. its image [s+m, e+m) is not inside one period: the ambiguous clause
+// `s' % L + (e' - s') <= L` of `normOk L (expand l 0 m)`, and the test c04Loc makes at location level.
+// The property of C04 carves these out ("ambiguous spans only when they do not cross the new
+// origin"); an already inverted span (start >= end, the result of an earlier crossing) counts too.
+func ambCrossesOrigin(l gts.Location, m, L int) bool {
+	for _, u := range leaves(l) {
+		if a, ok := u.(gts.Ambiguous); ok {
+			if a.Start >= a.End || a.Start < 0 || floorDiv(a.Start+m, L) != floorDiv(a.End-1+m, L) {
+				return true
+			}
+		}
+	}
+	return false
+}
+
+func floorDiv(a, b int) int {
+	q := a / b
+	if a%b != 0 && (a < 0) != (b < 0) {
+		q--
+	}
+	return q
 }
